@@ -196,15 +196,52 @@ Section Helpers.
     - split; [congruence | intros [_ []]].
   Qed.
 
+  (* ---- a required member that is absent *)
+  Lemma missing_required_some dr df p x :
+    p_state p = PRequired -> missing T dr df p = Some x ->
+    x = ROptNone /\ dr (p_ty p) JNull = Some ROptNone.
+  Proof.
+    unfold missing. intros ->. destruct (get_det T (p_ty p)); [|discriminate].
+    destruct (dr (p_ty p) JNull) as [[]|]; try discriminate. intros H. inversion H. split; reflexivity.
+  Qed.
+
+  Lemma missing_required_null dr df p :
+    p_state p = PRequired -> get_det T (p_ty p) <> None -> dr (p_ty p) JNull = Some ROptNone ->
+    missing T dr df p = Some ROptNone.
+  Proof.
+    unfold missing. intros -> Hd E. destruct (get_det T (p_ty p)); [|congruence]. rewrite E. reflexivity.
+  Qed.
+
+  Lemma missing_required_none dr df p :
+    p_state p = PRequired -> dr (p_ty p) JNull <> Some ROptNone -> missing T dr df p = None.
+  Proof.
+    unfold missing. intros -> E. destruct (get_det T (p_ty p)); [|reflexivity].
+    destruct (dr (p_ty p) JNull) as [[]|]; try reflexivity. congruence.
+  Qed.
+
+  Lemma de_untagged_renum de dflt deny vs i j x :
+    de_untagged T de dflt deny vs i j = Some x -> exists k y, x = REnum k y.
+  Proof.
+    revert i. induction vs as [|v vs IH]; intros i; simpl; [discriminate|].
+    match goal with |- match ?X with _ => _ end = _ -> _ => destruct X eqn:E end.
+    - intros H. inversion H. eexists. eexists. reflexivity.
+    - apply IH.
+  Qed.
+
   Section Lift.
     Variables de1 de2 : id -> json -> option rval.
     Variables df1 df2 : id -> option rval.
     Hypothesis Hde : forall t j, de1 t j <> None -> de2 t j <> None.
     Hypothesis Hdf : forall t, df1 t <> None -> df2 t <> None.
+    (* a required member may be absent when its type reads null as the bare None *)
+    Hypothesis Hnull : forall t, de1 t JNull = Some ROptNone -> de2 t JNull = Some ROptNone.
 
     Lemma missing_lift p : missing T de1 df1 p <> None -> missing T de2 df2 p <> None.
     Proof.
-      unfold missing. destruct (p_state p); [exact (fun H => H) | apply Hdf | apply Hde].
+      unfold missing. destruct (p_state p); [ | apply Hdf | apply Hde].
+      destruct (get_det T (p_ty p)); [|exact (fun H => H)].
+      destruct (de1 (p_ty p) JNull) as [x|] eqn:E; [|congruence].
+      destruct x; try congruence. rewrite (Hnull _ E). exact (fun H => H).
     Qed.
 
     Lemma member_val_lift kvs p w :
@@ -430,12 +467,34 @@ Section DeMono.
   Lemma de_0 t j : de 0 t j = None.
   Proof. reflexivity. Qed.
 
+  (* reading null as the bare None goes through Option and the transparent layers only *)
+  Lemma de_node_null_lift dr1 dr2 df1 df2 :
+    (forall t, dr1 t JNull = Some ROptNone -> dr2 t JNull = Some ROptNone) ->
+    forall d, de_node dr1 df1 d JNull = Some ROptNone -> de_node dr2 df2 d JNull = Some ROptNone.
+  Proof.
+    intros Hn d. destruct d; cbn [de_node]; try discriminate; try exact (fun H => H).
+    - (* DEnum *)
+      destruct tag; simpl; try discriminate.
+      intros H. apply de_untagged_renum in H. destruct H as [k [y H]]. discriminate H.
+    - (* DNewtype *)
+      destruct c; try discriminate.
+      + apply Hn.
+      + destruct (dr1 inner JNull) as [x|] eqn:E; [|discriminate].
+        destruct (existsb (json_equiv JNull) vs) eqn:Ex; [|discriminate].
+        intros H. inversion H. subst x. rewrite (Hn _ E). reflexivity.
+      + destruct (dr1 inner JNull) as [x|] eqn:E; [|discriminate].
+        destruct (existsb (json_equiv JNull) vs) eqn:Ex; [discriminate|].
+        intros H. inversion H. subst x. rewrite (Hn _ E). reflexivity.
+    - (* DBox *) apply Hn.
+  Qed.
+
   Lemma de_node_lift dr1 dr2 df1 df2 :
     (forall t j, dr1 t j <> None -> dr2 t j <> None) ->
     (forall t, df1 t <> None -> df2 t <> None) ->
+    (forall t, dr1 t JNull = Some ROptNone -> dr2 t JNull = Some ROptNone) ->
     forall d j, de_node dr1 df1 d j <> None -> de_node dr2 df2 d j <> None.
   Proof.
-    intros Hde Hdf d j. destruct d; simpl; try exact (fun H => H).
+    intros Hde Hdf Hnull d j. destruct d; simpl; try exact (fun H => H).
     - (* DEnum *) apply de_enum_lift; assumption.
     - (* DStruct *) apply de_struct_body_lift; assumption.
     - (* DNewtype *)
@@ -466,6 +525,102 @@ Section DeMono.
       rewrite !option_map_ok. apply mapM_lift. exact Hde.
     - (* DTuple *) destruct j; try exact (fun H => H). rewrite !option_map_ok. apply zipM_lift. exact Hde.
   Qed.
+
+  (* ---------------------------------------------------------------- the chase behind [missing]
+     What serde does for an absent member without default, spelled out: chase
+     through Box, transparent newtypes and value-constrained newtypes to an
+     Option.  At every fuel it is the same as "[de] reads null as the bare None",
+     which is the test IR/Serde.v's [missing] makes. *)
+  Fixpoint missing_val (fuel : nat) (i : id) : option rval :=
+    match fuel with
+    | O => None
+    | S f =>
+        match get_det T i with
+        | Some (DOption _) => Some ROptNone
+        | Some (DBox t) => missing_val f t
+        | Some (DNewtype _ _ t c) =>
+            match c with
+            | CNone => missing_val f t
+            | CEnum vs =>
+                match missing_val f t with
+                | Some x => if existsb (json_equiv JNull) vs then Some x else None
+                | None => None
+                end
+            | CDeny vs =>
+                match missing_val f t with
+                | Some x => if existsb (json_equiv JNull) vs then None else Some x
+                | None => None
+                end
+            | CString _ _ _ => None
+            end
+        | _ => None
+        end
+    end.
+
+  Lemma missing_val_none_value : forall f i x, missing_val f i = Some x -> x = ROptNone.
+  Proof.
+    induction f as [|f IH]; intros i x; [discriminate|]. cbn [missing_val].
+    destruct (get_det T i) as [[]|]; try discriminate.
+    - destruct c; try discriminate.
+      + apply IH.
+      + destruct (missing_val f inner) eqn:E; [|discriminate].
+        destruct (existsb (json_equiv JNull) vs); [|discriminate]. intros H. inversion H. subst. eapply IH; eassumption.
+      + destruct (missing_val f inner) eqn:E; [|discriminate].
+        destruct (existsb (json_equiv JNull) vs); [discriminate|]. intros H. inversion H. subst. eapply IH; eassumption.
+    - intros H. inversion H. reflexivity.
+    - apply IH.
+  Qed.
+
+  Lemma missing_val_de_null : forall f i x, missing_val f i = Some x -> de f i JNull = Some x.
+  Proof.
+    induction f as [|f IH]; intros i x; [discriminate|]. cbn [missing_val]. rewrite de_S.
+    destruct (get_det T i) as [[]|]; try discriminate; cbn [de_node].
+    - destruct c; try discriminate.
+      + apply IH.
+      + destruct (missing_val f inner) eqn:E; [|discriminate]. rewrite (IH _ _ E).
+        destruct (existsb (json_equiv JNull) vs); [|discriminate]. exact (fun H => H).
+      + destruct (missing_val f inner) eqn:E; [|discriminate]. rewrite (IH _ _ E).
+        destruct (existsb (json_equiv JNull) vs); [discriminate|]. exact (fun H => H).
+    - exact (fun H => H).
+    - apply IH.
+  Qed.
+
+  Lemma de_null_missing_val : forall f i, de f i JNull = Some ROptNone -> missing_val f i = Some ROptNone.
+  Proof.
+    induction f as [|f IH]; intros i; [rewrite de_0; discriminate|]. rewrite de_S. cbn [missing_val].
+    destruct (get_det T i) as [d|]; [|discriminate].
+    destruct d; cbn [de_node]; try discriminate; try exact (fun H => H).
+    - (* DEnum *)
+      destruct tag; simpl; try discriminate.
+      intros H. apply de_untagged_renum in H. destruct H as [k [y H]]. discriminate H.
+    - (* DNewtype *)
+      destruct c; try discriminate.
+      + apply IH.
+      + destruct (de f inner JNull) as [x|] eqn:E; [|discriminate].
+        destruct (existsb (json_equiv JNull) vs) eqn:Ex; [|discriminate].
+        intros H. inversion H. subst x. rewrite (IH _ E). reflexivity.
+      + destruct (de f inner JNull) as [x|] eqn:E; [|discriminate].
+        destruct (existsb (json_equiv JNull) vs) eqn:Ex; [discriminate|].
+        intros H. inversion H. subst x. rewrite (IH _ E). reflexivity.
+    - (* DBox *) apply IH.
+  Qed.
+
+  (* [missing] for a required member = the chase, at the fuel of the enclosing [de] *)
+  Theorem missing_required_chase f df p :
+    p_state p = PRequired -> missing T (de f) df p = missing_val f (p_ty p).
+  Proof.
+    intros Hs. destruct (missing_val f (p_ty p)) as [x|] eqn:E.
+    - assert (x = ROptNone) by (eapply missing_val_none_value; exact E). subst x.
+      apply missing_val_de_null in E. apply missing_required_null; [exact Hs | | exact E].
+      destruct f as [|f]; [rewrite de_0 in E; discriminate|]. rewrite de_S in E.
+      destruct (get_det T (p_ty p)); congruence.
+    - apply missing_required_none; [exact Hs|]. intros H. apply de_null_missing_val in H. congruence.
+  Qed.
+
+  Lemma missing_required_option f df p t :
+    p_state p = PRequired -> get_det T (p_ty p) = Some (DOption t) ->
+    missing T (de (S f)) df p = Some ROptNone.
+  Proof. intros Hs Hd. rewrite (missing_required_chase _ _ _ Hs). cbn [missing_val]. rewrite Hd. reflexivity. Qed.
 
   (* ---------------------------------------------------------------- default_val *)
   Lemma default_val_S : forall f t, default_val f t <> None -> default_val (S f) t <> None.
@@ -512,11 +667,23 @@ Section DeMono.
   Qed.
 
   (* ---------------------------------------------------------------- de *)
+  Lemma null_S : forall f t, de f t JNull = Some ROptNone -> de (S f) t JNull = Some ROptNone.
+  Proof.
+    induction f as [|f IH]; intros t; [rewrite de_0; discriminate|].
+    rewrite (de_S (S f)), (de_S f). destruct (get_det T t) as [d|]; [|exact (fun H => H)].
+    apply de_node_null_lift. exact IH.
+  Qed.
+
+  Lemma null_mono f f' t : f <= f' -> de f t JNull = Some ROptNone -> de f' t JNull = Some ROptNone.
+  Proof.
+    intros Hle H. induction Hle as [|m Hle IH]; [exact H | apply null_S; exact IH].
+  Qed.
+
   Lemma acc_S : forall f t j, de f t j <> None -> de (S f) t j <> None.
   Proof.
     induction f as [|f IH]; intros t j; [rewrite de_0; congruence|].
     rewrite (de_S (S f)), (de_S f). destruct (get_det T t) as [d|]; [|exact (fun H => H)].
-    apply de_node_lift; [exact IH | apply default_val_S].
+    apply de_node_lift; [exact IH | apply default_val_S | apply null_S].
   Qed.
 
   Theorem acc_mono f f' t j : f <= f' -> de f t j <> None -> de f' t j <> None.
@@ -528,63 +695,72 @@ Section DeMono.
   Lemma missing_mono f f' p :
     f <= f' -> missing T (de f) (default_val f) p <> None -> missing T (de f') (default_val f') p <> None.
   Proof.
-    intros Hle. apply missing_lift; [intros t j; apply acc_mono; exact Hle | intros t; apply default_val_mono; exact Hle].
+    intros Hle. apply missing_lift; [intros t j; apply acc_mono; exact Hle | intros t; apply default_val_mono; exact Hle
+                | intros t; apply null_mono; exact Hle].
   Qed.
 
   Lemma member_val_mono f f' kvs p w :
     f <= f' -> member_val T (de f) (default_val f) kvs p w <> None ->
     member_val T (de f') (default_val f') kvs p w <> None.
   Proof.
-    intros Hle. apply member_val_lift; [intros t j; apply acc_mono; exact Hle | intros t; apply default_val_mono; exact Hle].
+    intros Hle. apply member_val_lift; [intros t j; apply acc_mono; exact Hle | intros t; apply default_val_mono; exact Hle
+                | intros t; apply null_mono; exact Hle].
   Qed.
 
   Lemma de_named_mono f f' ps kvs :
     f <= f' -> de_named T (de f) (default_val f) ps kvs <> None ->
     de_named T (de f') (default_val f') ps kvs <> None.
   Proof.
-    intros Hle. apply de_named_lift; [intros t j; apply acc_mono; exact Hle | intros t; apply default_val_mono; exact Hle].
+    intros Hle. apply de_named_lift; [intros t j; apply acc_mono; exact Hle | intros t; apply default_val_mono; exact Hle
+                | intros t; apply null_mono; exact Hle].
   Qed.
 
   Lemma de_struct_obj_mono f f' ps deny kvs :
     f <= f' -> de_struct_obj T (de f) (default_val f) ps deny kvs <> None ->
     de_struct_obj T (de f') (default_val f') ps deny kvs <> None.
   Proof.
-    intros Hle. apply de_struct_obj_lift; [intros t j; apply acc_mono; exact Hle | intros t; apply default_val_mono; exact Hle].
+    intros Hle. apply de_struct_obj_lift; [intros t j; apply acc_mono; exact Hle | intros t; apply default_val_mono; exact Hle
+                | intros t; apply null_mono; exact Hle].
   Qed.
 
   Lemma de_struct_seq_mono f f' ps l :
     f <= f' -> de_struct_seq T (de f) (default_val f) ps l <> None ->
     de_struct_seq T (de f') (default_val f') ps l <> None.
   Proof.
-    intros Hle. apply de_struct_seq_lift; [intros t j; apply acc_mono; exact Hle | intros t; apply default_val_mono; exact Hle].
+    intros Hle. apply de_struct_seq_lift; [intros t j; apply acc_mono; exact Hle | intros t; apply default_val_mono; exact Hle
+                | intros t; apply null_mono; exact Hle].
   Qed.
 
   Lemma de_struct_body_mono f f' ps deny j :
     f <= f' -> de_struct_body T (de f) (default_val f) ps deny j <> None ->
     de_struct_body T (de f') (default_val f') ps deny j <> None.
   Proof.
-    intros Hle. apply de_struct_body_lift; [intros t x; apply acc_mono; exact Hle | intros t; apply default_val_mono; exact Hle].
+    intros Hle. apply de_struct_body_lift; [intros t x; apply acc_mono; exact Hle | intros t; apply default_val_mono; exact Hle
+                | intros t; apply null_mono; exact Hle].
   Qed.
 
   Lemma de_payload_mono f f' deny vd j :
     f <= f' -> de_payload T (de f) (default_val f) deny vd j <> None ->
     de_payload T (de f') (default_val f') deny vd j <> None.
   Proof.
-    intros Hle. apply de_payload_lift; [intros t x; apply acc_mono; exact Hle | intros t; apply default_val_mono; exact Hle].
+    intros Hle. apply de_payload_lift; [intros t x; apply acc_mono; exact Hle | intros t; apply default_val_mono; exact Hle
+                | intros t; apply null_mono; exact Hle].
   Qed.
 
   Lemma de_untagged_mono f f' deny vs i j :
     f <= f' -> de_untagged T (de f) (default_val f) deny vs i j <> None ->
     de_untagged T (de f') (default_val f') deny vs i j <> None.
   Proof.
-    intros Hle. apply de_untagged_lift; [intros t x; apply acc_mono; exact Hle | intros t; apply default_val_mono; exact Hle].
+    intros Hle. apply de_untagged_lift; [intros t x; apply acc_mono; exact Hle | intros t; apply default_val_mono; exact Hle
+                | intros t; apply null_mono; exact Hle].
   Qed.
 
   Lemma de_enum_mono f f' tag vs deny j :
     f <= f' -> de_enum T (de f) (default_val f) tag vs deny j <> None ->
     de_enum T (de f') (default_val f') tag vs deny j <> None.
   Proof.
-    intros Hle. apply de_enum_lift; [intros t x; apply acc_mono; exact Hle | intros t; apply default_val_mono; exact Hle].
+    intros Hle. apply de_enum_lift; [intros t x; apply acc_mono; exact Hle | intros t; apply default_val_mono; exact Hle
+                | intros t; apply null_mono; exact Hle].
   Qed.
 
   Lemma mapM_de_mono f f' t l : f <= f' -> mapM (de f t) l <> None -> mapM (de f' t) l <> None.
